@@ -2101,6 +2101,62 @@ func isFreshBig(v ssa.Value, depth int) bool {
 		return true
 	case *ssa.Const:
 		return x.IsNil()
+	case *ssa.UnOp:
+		// load of a local variable that lives in a cell (captured by a closure, or address taken):
+		// fresh when every value ever stored into the cell is
+		if x.Op != token.MUL {
+			return false
+		}
+		cell := x.X
+		if fv, ok := cell.(*ssa.FreeVar); ok {
+			cell = freeVarBinding(fv)
+		}
+		al, ok := cell.(*ssa.Alloc)
+		if !ok || al.Referrers() == nil {
+			return false
+		}
+		n := 0
+		for _, r := range *al.Referrers() {
+			switch st := r.(type) {
+			case *ssa.Store:
+				if st.Addr != al {
+					return false // the cell's address is stored somewhere
+				}
+				if !isFreshBig(st.Val, depth+1) {
+					return false
+				}
+				n++
+			case *ssa.UnOp, *ssa.MakeClosure, *ssa.DebugRef:
+			default:
+				return false
+			}
+		}
+		// closures that capture the cell may store into it as well
+		for _, r := range *al.Referrers() {
+			if mc, ok := r.(*ssa.MakeClosure); ok {
+				fn, _ := mc.Fn.(*ssa.Function)
+				if fn == nil {
+					return false
+				}
+				for i, b := range mc.Bindings {
+					if b != al || i >= len(fn.FreeVars) || fn.FreeVars[i].Referrers() == nil {
+						continue
+					}
+					for _, rr := range *fn.FreeVars[i].Referrers() {
+						switch st := rr.(type) {
+						case *ssa.Store:
+							if st.Addr != fn.FreeVars[i] || !isFreshBig(st.Val, depth+1) {
+								return false
+							}
+						case *ssa.UnOp, *ssa.DebugRef:
+						default:
+							return false
+						}
+					}
+				}
+			}
+		}
+		return n > 0
 	case *ssa.Phi:
 		for _, ed := range x.Edges {
 			if ed != v && !isFreshBig(ed, depth+1) {
@@ -2226,6 +2282,15 @@ func preserveObligations(e *Enc, fn *ssa.Function, fs *FuncSpec) {
 			where := ""
 			if pf := s.ins.Parent(); pf != nil {
 				where = fnDisplayName(pf) + ":" + srcTextAt(pf, s.ins.Pos())
+				sanctioned := false
+				for _, ex := range pv.Except {
+					if ex == fnDisplayName(pf) {
+						sanctioned = true
+					}
+				}
+				if sanctioned {
+					continue
+				}
 			}
 			n := name + "/" + strings.ReplaceAll(short, " ", ".") + "@" + where
 			if seenSite[n] {
@@ -2239,4 +2304,32 @@ func preserveObligations(e *Enc, fn *ssa.Function, fs *FuncSpec) {
 			mk(name, true, "", fn.Pos())
 		}
 	}
+}
+
+
+// freeVarBinding: the value a closure's free variable is bound to where the closure is made
+// (nil when the closure is made in more than one place with different bindings).
+func freeVarBinding(fv *ssa.FreeVar) ssa.Value {
+	fn := fv.Parent()
+	if fn == nil || fn.Parent() == nil {
+		return nil
+	}
+	idx := -1
+	for i, v := range fn.FreeVars {
+		if v == fv {
+			idx = i
+		}
+	}
+	var found ssa.Value
+	for _, b := range fn.Parent().Blocks {
+		for _, ins := range b.Instrs {
+			if mc, ok := ins.(*ssa.MakeClosure); ok && mc.Fn == fn && idx >= 0 && idx < len(mc.Bindings) {
+				if found != nil && found != mc.Bindings[idx] {
+					return nil
+				}
+				found = mc.Bindings[idx]
+			}
+		}
+	}
+	return found
 }
